@@ -37,8 +37,11 @@ def lab(s):
 LABELS = ["A", "B", "C", "a", "0", "S1", "zz", "Ab", "x_1", " q"]
 
 
+SCALE = [1.0]      # overall (power-of-two) energy scale of the model being generated
+
+
 def dyadic(r, lo=-4, hi=4):
-    return r.range(lo * 8, hi * 8) / 8.0
+    return r.range(lo * 8, hi * 8) / 8.0 * SCALE[0]
 
 
 def nonzero_dyadic(r):
@@ -101,9 +104,9 @@ def rand_amp(r, cplx):
     if kind < 6:
         v = nonzero_dyadic(r)
     elif kind < 8:
-        v = round((r.uniform() - 0.5) * 4, 6) or 0.37
+        v = (round((r.uniform() - 0.5) * 4, 6) or 0.37) * SCALE[0]
     else:
-        v = r.choice([1.0, -1.0, 0.5, 2.0])
+        v = r.choice([1.0, -1.0, 0.5, 2.0]) * SCALE[0]
     if cplx and r.chance(1, 2):
         return complex(v, nonzero_dyadic(r))
     return v
@@ -213,9 +216,15 @@ def add_user_term(m, t, factors):
         m.build.append(line(t.real if isinstance(t, complex) else t, factors))
 
 
-def gen_model(r, max_modes=4, cplx=False, **kw):
+def gen_model(r, max_modes=4, cplx=False, scale=1.0, **kw):
     m = gen_sites(r, max_modes, **{k: v for k, v in kw.items() if k in ("spin_half", "nsites")})
-    add_random_terms(r, m, cplx, **{k: v for k, v in kw.items() if k in ("allow",)})
+    SCALE[0] = scale
+    try:
+        add_random_terms(r, m, cplx, **{k: v for k, v in kw.items() if k in ("allow",)})
+    finally:
+        SCALE[0] = 1.0
+    if scale != 1.0:
+        m.kinds.add("scaled_%g" % scale)
     return m
 
 
@@ -431,7 +440,7 @@ def replay(ctx, rp):
 
 def numeric_campaign(ctx, props, want, n_quick, n_thorough, max_modes_quick=4, max_modes_thorough=5, trunc=False,
                      symm_modes=("default", "default", "ignore", "custom"), allow=None, betas=(0.5, 1.0, 2.0, 5.0, 10.0),
-                     variants_thorough=("real", "complex"), nontrivial=None, extra=None, ngf=6, nchi=2, nsusc=2, near=0, shifts=(5.0, -3.0, 0.625, 40.0)):
+                     variants_thorough=("real", "complex"), nontrivial=None, extra=None, ngf=6, nchi=2, nsusc=2, near=0, shifts=(5.0, -3.0, 0.625, 40.0), scales=None):
     r = ctx.rng
     thorough = ctx.tier == "thorough"
     n = n_thorough if thorough else n_quick
@@ -453,6 +462,8 @@ def numeric_campaign(ctx, props, want, n_quick, n_thorough, max_modes_quick=4, m
             kw = {}
             if allow:
                 kw["allow"] = allow
+            if scales:
+                kw["scale"] = r.choice(list(scales))
             m = gen_model(r, max_modes=mm, cplx=(variant == "complex"), **kw)
             M = m.modes()
             symm = r.choice(list(symm_modes))
